@@ -1,7 +1,9 @@
 #!/bin/sh
 # usage: vp/sweep.sh <seed> [tier] [ids...]   — runs every registered check once and prints one line per check
-SEED=${1:-1}; TIER=${2:-quick}; shift 2 2>/dev/null
-IDS=${@:-$(/venv/bin/python -c "import json;print(' '.join(c['property_id'] for c in json.load(open('MANIFEST.json'))['checks']))")}
+SEED=${1:-1}; TIER=${2:-quick}
+[ $# -ge 1 ] && shift; [ $# -ge 1 ] && shift
+IDS="$*"
+[ -z "$IDS" ] && IDS=$(/venv/bin/python -c "import json;print(' '.join(c['property_id'] for c in json.load(open('MANIFEST.json'))['checks']))")
 for id in $IDS; do
   S=$(date +%s)
   OUT=$(VERIF_SEED=$SEED /venv/bin/python vp/run.py $id --tier $TIER 2>&1); RC=$?
